@@ -61,6 +61,7 @@ func Run(c *core.Ctx) int {
 		},
 		"program_level": map[string]any{
 			"programs_compiled":                           ps.programs,
+			"of_which_fixed_sentinel_programs":            ps.sentinels,
 			"program_templates":                           ps.templates,
 			"builds":                                      ps.programs * 4,
 			"mappings_decoded":                            ps.mappings,
@@ -76,6 +77,8 @@ func Run(c *core.Ctx) int {
 			"distinct_statement_kinds":                    sortedKeys(ps.kinds),
 			"positions_with_conflicting_mappings":         ps.ambiguousPos,
 			"mappings_beyond_utf16_line_length":           ps.colBeyondU16,
+			"frames_skipped_node_final_segment_quirk":     ps.nodeLastSegQuirk,
+			"probes_that_did_not_throw":                   ps.noPanic,
 		},
 	}
 	for _, s := range ps.samples {
@@ -189,8 +192,8 @@ func calibrate(c *core.Ctx, sink *failSink) string {
 func runStreams(c *core.Ctx, sink *failSink) *streamStats {
 	total := &streamStats{classes: map[string]int{}}
 	total.convention = calibrate(c, sink)
-	nStreams := c.N(24000, 2000000)
-	nWS := c.N(8000, 400000)
+	nStreams := c.N(20000, 2000000)
+	nWS := c.N(6000, 400000)
 	const batch = 500
 	nb := (nStreams + batch - 1) / batch
 	nwb := (nWS + batch - 1) / batch
@@ -517,7 +520,7 @@ type progTotals struct {
 }
 
 func runPrograms(c *core.Ctx, sink *failSink) *progTotals {
-	n := c.N(24, 600)
+	n := c.N(21, 600)
 	if os.Getenv("VERIF_C19_ONLY") == "sentinels" {
 		n = 0
 	}
